@@ -60,16 +60,29 @@ fn payloads() -> BoxedStrategy<Payload> {
     ];
     // a third of the payloads force a later band that is wider than the first one
     let widen = prop_oneof![2 => Just(0usize), 1 => 1usize..=30];
-    (raster, proptest::collection::vec(item, 0..=14), widen)
-        .prop_map(|(r, mut items, widen)| {
+    // where the raster attribute goes: 0 = in front (the modelled case), 1 = at a random position, 2 = as the very last token
+    let raster_pos = prop_oneof![4 => Just(0u8), 1 => Just(1u8), 1 => Just(2u8)];
+    (raster, proptest::collection::vec(item, 0..=14), widen, raster_pos, any::<u16>())
+        .prop_map(|(r, mut items, widen, rpos, ridx)| {
             let mut all = Vec::new();
+            let mut late = None;
             if let Some(r) = r {
-                all.push(r);
+                match rpos {
+                    0 => all.push(r),
+                    1 => {
+                        let at = icyv::util::pick(ridx, items.len() + 1);
+                        items.insert(at, r);
+                    }
+                    _ => late = Some(r),
+                }
             }
             all.append(&mut items);
             if widen > 0 {
                 all.push(Item::Lf);
                 all.push(Item::Data(vec![b'~'; widen]));
+            }
+            if let Some(r) = late {
+                all.push(r);
             }
             Payload { data: Bytes(render_items(&all)) }
         })
@@ -283,7 +296,85 @@ struct Placement {
 fn placements() -> BoxedStrategy<Placement> {
     // positions on a coarse grid so that images frequently cover each other
     let img = (0u8..=3, 0u8..=2, prop_oneof![Just(8u8), Just(16), Just(24), Just(40)], 1u8..=6).prop_map(|(c, r, w, b)| Img { col: c * 2, row: r * 2, w, bands: b });
-    proptest::collection::vec(img, 1..=4).prop_map(|imgs| Placement { imgs }).boxed()
+    // half of the later images are made to cover an earlier one exactly or generously (same origin, size >=)
+    let cover = (any::<bool>(), any::<u16>(), 0u8..=2, 0u8..=2);
+    proptest::collection::vec((img, cover), 1..=MAX_IMGS)
+        .prop_map(|v| {
+            let mut imgs: Vec<Img> = Vec::new();
+            for (im, (do_cover, which, dw, db)) in v {
+                if do_cover && !imgs.is_empty() {
+                    let t = imgs[icyv::util::pick(which, imgs.len())].clone();
+                    imgs.push(Img { col: t.col, row: t.row, w: t.w.saturating_add(dw * 8), bands: (t.bands + db).min(8) });
+                } else {
+                    imgs.push(im);
+                }
+            }
+            Placement { imgs }
+        })
+        .boxed()
+}
+
+const MAX_IMGS: usize = 4;
+
+fn placements_seq() -> BoxedStrategy<Placement> {
+    let img = (0u8..=5, 0u8..=3, prop_oneof![Just(8u8), Just(16), Just(24), Just(40)], 1u8..=6).prop_map(|(c, r, w, b)| Img { col: c * 2, row: r * 2, w, bands: b });
+    let cover = (any::<bool>(), any::<u16>(), 0u8..=2, 0u8..=2);
+    proptest::collection::vec((img, cover), 1..=7)
+        .prop_map(|v| {
+            let mut imgs: Vec<Img> = Vec::new();
+            for (im, (do_cover, which, dw, db)) in v {
+                if do_cover && !imgs.is_empty() {
+                    let t = imgs[icyv::util::pick(which, imgs.len())].clone();
+                    imgs.push(Img { col: t.col, row: t.row, w: t.w.saturating_add(dw * 8), bands: (t.bands + db).min(8) });
+                } else {
+                    imgs.push(im);
+                }
+            }
+            Placement { imgs }
+        })
+        .boxed()
+}
+
+/// images arrive one after the other (no gate): each decode is awaited, then one poll; the screen list must follow the model
+fn check_sequential(p: &Placement) -> Verdict {
+    let mut buf = Buffer::create((80, 25));
+    buf.is_terminal_buffer = true;
+    let mut caret = Caret::default();
+    let mut parser = ansi::Parser::default();
+    let font = buf.get_font_dimensions();
+    let mut screen: Vec<usize> = Vec::new();
+    let mut removed_non_newest = false;
+    for (j, img) in p.imgs.iter().enumerate() {
+        feed(&mut buf, &mut caret, &mut parser, &format!("\x1b[{};{}H\x1bPq{}\x1b\\", img.row as u32 + 1, img.col as u32 + 1, img_payload(img)));
+        let t = Instant::now();
+        while buf.sixel_threads.front().map(|h| !h.is_finished()).unwrap_or(false) {
+            if t.elapsed() > Duration::from_secs(10) {
+                return Verdict::discard("decode did not finish within 10 s");
+            }
+            std::thread::yield_now();
+        }
+        if let Err(e) = buf.update_sixel_threads() {
+            return Verdict::fail("sequential.poll_err", format!("update_sixel_threads returned {e:?} for a valid image"));
+        }
+        let r = rect_of(img, font);
+        let before = screen.clone();
+        screen.retain(|old| !r.contains_rect(&rect_of(&p.imgs[*old], font)));
+        if before.len() != screen.len() && before.last().map(|l| screen.contains(l)).unwrap_or(false) && screen.len() >= 2 {
+            removed_non_newest = true;
+        }
+        screen.push(j);
+        let want: Vec<(i32, i32, i32, i32)> = screen.iter().map(|i| (p.imgs[*i].col as i32, p.imgs[*i].row as i32, p.imgs[*i].w as i32, p.imgs[*i].bands as i32 * 6)).collect();
+        let got = screen_of(&buf);
+        if got != want {
+            let mut gs = got.clone();
+            let mut ws = want.clone();
+            gs.sort_unstable();
+            ws.sort_unstable();
+            let clause = if gs == ws { "sequential.order_of_survivors" } else { "sequential.lost_or_duplicate_or_not_replaced" };
+            return Verdict::fail(clause, format!("after image {j} of {:?}: screen {got:?}, model {want:?} (x,y,w,h in arrival order)", p.imgs));
+        }
+    }
+    Verdict::pass(removed_non_newest, format!("k={}{}", p.imgs.len(), if removed_non_newest { "+covered_older_with_survivors" } else { "" }))
 }
 
 fn img_payload(i: &Img) -> String {
@@ -477,17 +568,19 @@ fn poll_not_prefix(_got: &[(i32, i32, i32, i32)], _want: &[(i32, i32, i32, i32)]
 fn main() {
     let mut eng = Engine::new("C14");
     eng.rule(
-        "payloads: sixel grammar (data ?..~, !n repeats n<=500, $, -, #c, #c;2;r;g;b, leading raster \"a;b;w;h with sizes smaller/equal/larger than the data; a third force a later band wider than \
+        "payloads: sixel grammar (data ?..~, !n repeats n<=500, $, -, #c, #c;2;r;g;b, raster \"a;b;w;h (in front, at a random position or as the last token) with sizes smaller/equal/larger than the data; a third force a later band wider than \
          the first) -> Sixel::parse_from: picture_data.len()==4*w*h, declared raster height == h and width <= w, pixel-exact agreement with a reference rasteriser (painted <=> opaque, RGB of defined registers). \
          Non-trivial payload: painted rows of unequal length or raster != data extent. schedules: k<=4 images (grid positions so that images cover each other) held at the decode gate (hook), ALL k! completion \
          orders x ALL 2^k poll placements; after every poll layers[0].sixels must equal a FIFO-prefix model with the containment rule; polls must return within 2 s while decodes are held. \
-         Non-trivial placement: k>=2 (some completion order differs from arrival order). Distinct by case hash.",
+         Non-trivial placement: k>=2 (some completion order differs from arrival order). sequential_arrival: up to 7 images arriving one after the other (half of them covering an earlier one), \
+         poll after each, screen list compared with the model; non-trivial: an image covered an older one while a newer one survived. Distinct by case hash.",
     );
     eng.assume("completion orders are controlled at the granularity of 'decode finished' through the cfg(icy_engine_verif) gate at the start of each decode thread");
     eng.assume("reference rasteriser follows the DEC sixel definition; colours are compared only for registers the payload defines with RGB (0..=100 per channel)");
     eng.generated(PartCfg::new("payloads", 400_000, 12_000_000), payloads, check_payload);
+    eng.generated(PartCfg::new("sequential_arrival", 12_000, 600_000), placements_seq, check_sequential);
     eng.generated_with_class(
-        PartCfg::new("schedules", 160, 6_000).isolated().timeout_ms(120_000).hang_is_violation(true).shrink_budget(60),
+        PartCfg::new("schedules", 300, 8_000).isolated().timeout_ms(120_000).hang_is_violation(true).shrink_budget(60),
         placements,
         check_schedules,
         |_| "poll_blocked_or_decode_stuck".to_string(),
